@@ -1461,6 +1461,11 @@ static void assign_lvar_offsets(Obj *prog) {
       top += var->ty->size;
     }
 
+    // A variadic function continues from here with va_arg.
+    fn->va_gp = gp;
+    fn->va_fp = fp;
+    fn->va_stack = align_to(top, 8);
+
     // Assign offsets to pass-by-register parameters and local variables.
     for (Obj *var = fn->locals; var; var = var->next) {
       if (var->offset)
@@ -1604,21 +1609,16 @@ static void emit_text(Obj *prog) {
 
     // Save arg registers if function is variadic
     if (fn->va_area) {
-      int gp = 0, fp = 0;
-      for (Obj *var = fn->params; var; var = var->next) {
-        if (is_flonum(var->ty))
-          fp++;
-        else
-          gp++;
-      }
-
+      // The named parameters have been classified by
+      // assign_lvar_offsets(); va_arg continues after them.
+      int gp = fn->va_gp, fp = fn->va_fp;
       int off = fn->va_area->offset;
 
       // va_elem
       println("  movl $%d, %d(%%rbp)", gp * 8, off);          // gp_offset
       println("  movl $%d, %d(%%rbp)", fp * 16 + 48, off + 4); // fp_offset
       println("  movq %%rbp, %d(%%rbp)", off + 8);            // overflow_arg_area
-      println("  addq $16, %d(%%rbp)", off + 8);
+      println("  addq $%d, %d(%%rbp)", fn->va_stack, off + 8);
       println("  movq %%rbp, %d(%%rbp)", off + 16);           // reg_save_area
       println("  addq $%d, %d(%%rbp)", off + 24, off + 16);
 
